@@ -44,6 +44,9 @@ func main() {
 	R.Analysed["packages"] = len(P.Pkgs)
 	R.Analysed["packages_with_deps"] = len(P.All)
 	R.Analysed["repo"] = *repo
+	if len(P.NormLog) > 0 {
+		R.Analysed["normaliser"] = P.NormLog
+	}
 	func() {
 		defer func() {
 			if e := recover(); e != nil {
